@@ -216,6 +216,16 @@ def c09_case(case):
         return {"fail": "exception %s" % type(x).__name__, "text": txt}
     if r.resolution != base.resolution:
         return {"fail": "value: %s vs alone %s" % (r.resolution, base.resolution), "text": txt}
+    # the span is the stretch of text the reported derivation consumed: replay the production with own position bookkeeping
+    try:
+        bn = base if not latent else cp(e, ts=t0, timeout=0, latent_time=False)
+        if bn.resolution is not None:
+            sp = hull_spans(e, t0, bn.production, val_key(bn.resolution))
+            if len(sp) == 1 and (bn.resolution.mstart, bn.resolution.mend) not in sp:
+                a, b = next(iter(sp))
+                return {"fail": "span: stand-alone %r reported as %r, but the matches its derivation %s consumed span %r" % (pe, pe[bn.resolution.mstart:bn.resolution.mend], list(bn.production), pe[a:b]), "text": e}
+    except Exception as x:
+        return {"fail": "exception %s in the derivation replay" % type(x).__name__, "text": e}
     got = txt[r.resolution.mstart:r.resolution.mend]; want = pe[base.resolution.mstart:base.resolution.mend]
     if got != want or not (0 <= r.resolution.mstart < r.resolution.mend):
         return {"fail": "span: %r vs alone %r" % (got, want), "text": txt}
@@ -441,6 +451,25 @@ def sweep_c11(rng, tier):
     P = lambda s: tuple(datetime.strptime(s, "%Y-%m-%dT%H:%M").timetuple()[:5]) + (0,)
     ex = [(t, P(tss)) for _, tss, tests in corpus for t in tests] + samp(rng, [(t, P(tss)) for _, tss, tests in ac for t in tests], 400 if tier == "thorough" else 60)
     ex += [(t, (2018, 3, 7, 12, 43, 0)) for t in ["5pm - 7pm", "12.12.2020 - 14.12.2020", "übermorgen 5pm", "5. märz", "nächste woche freitag", "in fünf tagen", "für zwölf tage", "8 uhr - 9 uhr", "früh am morgen", "spätestens morgen", "dreißig tage"]]
+    # grammar expressions the corpora lack (no '12 am' in them): 12-hour clock forms with every marker spelling of the pattern
+    # language, at the boundary hours (all hours in the thorough tier), and words sampled from every enumerable pattern language
+    try:
+        marks = G.group_words("ruleHHMM", "ampm")
+    except Exception:
+        marks = ["am", "pm", "a.m.", "p.m."]
+    hours = range(1, 13) if tier == "thorough" else sorted({1, 11, 12, rng.randint(2, 10)})
+    for h in hours:
+        for mk in marks:
+            for form in ("%d %s", "%d:30 %s", "%d%s", "tomorrow %d %s"):
+                ex.append((form % (h, mk), (2018, 3, 7, 12, 43, 0)))
+    from ctparse.rule import rules as _rules0
+    for name in sorted(_rules0):
+        try:
+            ws = [w for w in G.L(name, 0, limit=3000) if any(ch.isalpha() for ch in w)]
+        except Exception:
+            continue
+        for w in samp(rng, ws, 6 if tier == "thorough" else 2):
+            ex.append((w, (2018, 3, 7, 12, 43, 0)))
     cases = []
     nrun = 0
     for t, ts in ex:
@@ -753,7 +782,11 @@ def sweep_c12(rng, tier):
             k = [i for i, (a, b) in enumerate(zip(got, base)) if a != b]
             fails.append({"text": C12_POOL[k[0]][0], "ts": list(ts), "opts": {"PYTHONHASHSEED": sd}, "expected": "same result under every hash seed", "observed": "stream differs between hash seeds", "what": "C12 hash seed"})
     if base is not None and norm(base) != [ref[t] for t, _ in C12_POOL]:
-        fails.append({"text": "(fresh interpreter)", "ts": list(ts), "opts": {}, "expected": "fresh process = this process", "observed": "differs", "what": "C12 fresh process"})
+        nb = norm(base)
+        k = [i for i, (t, _) in enumerate(C12_POOL) if nb[i] != ref[t]]
+        fails.append({"text": C12_POOL[k[0]][0], "ts": list(ts), "opts": {"history": "this process had parsed the whole pool (and other texts) before; the fresh interpreter parses the pool once, in order",
+                                                                       "pool_before_it": [t for t, _ in C12_POOL[:k[0]]][-6:], "texts_that_differ": len(k)},
+                      "expected": "the answer of a fresh interpreter: %s" % str(nb[k[0]])[:160], "observed": "in this process, after earlier calls: %s" % str(ref[C12_POOL[k[0]][0]])[:160], "what": "C12 fresh process"})
     # 4b. every rule whose whole pattern is one literal-like regex (these are the productions that can hand out a constant):
     #     a word of its language parsed at two different offsets; the result handed out first must not change afterwards,
     #     and a stream over the first text suspended after one candidate must not be affected by a complete parse of the second
@@ -1112,14 +1145,56 @@ def val_key(a):
     if isinstance(a, Duration): return ("D", a.value, a.unit.value)
 
 
+def own_matches(txt0):
+    """every match of every registered pattern at every position, overlapping ones included - found with the regex module
+    directly, not through the library's matching function (the specification of 'the pattern matches of the text')"""
+    from ctparse.rule import _regex
+    from ctparse.types import RegexMatch
+    out, seen = [], set()
+    for rid, rx in _regex.items():
+        for m in rx.finditer(txt0, overlapped=True):
+            r = RegexMatch(rid, m)
+            k = (rid, r.mstart, r.mend)
+            if k not in seen and r.mend > r.mstart:
+                seen.add(k); out.append(r)
+    return sorted(out, key=lambda m: (m.mstart, m.mend, m.id))
+
+
+def hull_spans(txt, ts, production, target):
+    """replay the reported derivation with own bookkeeping of positions: a value spans from the first to the last of the
+    matches it consumed.  Returns the set of spans under which `target` can be derived along `production`."""
+    C = sys.modules["ctparse.ctparse"]
+    from ctparse.rule import rules
+    from ctparse.types import RegexMatch
+    txt0 = re.sub('#[a-zA-Z0-9_-]+', '', C._preprocess_string(txt)).strip()
+    ids = [x for x in production if isinstance(x, int)]
+    names = [x for x in production if isinstance(x, str)]
+    ms = own_matches(txt0)
+    seqs = [s for s in C._regex_stack(txt0, ms) if [m.id for m in s] == ids]
+    frontier = [tuple((m, m.mstart, m.mend) for m in s) for s in seqs]
+    for nm in names:
+        if nm not in rules: return set()
+        f, pat = rules[nm]
+        nxt = []
+        for p in frontier:
+            objs = tuple(x[0] for x in p)
+            for (i, j) in C._match_rule(objs, pat):
+                args = [a if isinstance(a, RegexMatch) else copy.deepcopy(a) for a in objs[i:j]]
+                r = f(ts, *args)
+                if r is not None:
+                    nxt.append(p[:i] + ((r, min(x[1] for x in p[i:j]), max(x[2] for x in p[i:j])),) + p[j:])
+        frontier = nxt[:400]
+        if not frontier: return set()
+    return {(x[1], x[2]) for p in frontier for x in p if not isinstance(x[0], RegexMatch) and val_key(x[0]) == target}
+
+
 def brute(txt, ts, limit=6000):
     """independent closure of the derivation relation: gap-free maximal-coverage sequences, all rule applications on private copies"""
     C = sys.modules["ctparse.ctparse"]
     from ctparse.rule import rules, _regex
     from ctparse.types import RegexMatch
     txt0 = re.sub('#[a-zA-Z0-9_-]+', '', C._preprocess_string(txt)).strip()
-    ms = C._match_regex(txt0, _regex)
-    ms = sorted(ms, key=lambda m: (m.mstart, m.mend, m.id))
+    ms = own_matches(txt0)
     # own enumeration of maximal gap-free sequences
     n = len(ms)
     adj = lambda a, b: b.mstart >= a.mend and txt0[a.mend:b.mstart].strip() == "" and True
